@@ -2,6 +2,7 @@
 import ast
 from ..core import obligation, AnalysisError
 from .common import *
+from ..core import Fn
 
 
 def _policy_table(ctx, fn, subject_param):
@@ -464,3 +465,27 @@ def c03_10(ctx):
     for k in want:
         if k not in seen:
             ctx.fail(f, f.node, "the `%s` keyword is no longer taken out of the call's kwargs" % k)
+
+
+@obligation('C03.11', 'SIBLING table', '_pandas:presync accessors ij / oj / lj / rj / ffill / bfill',
+            'f.oj.bfill is f aligned on the union index AND back-filled: each accessor returns THIS decorator with one setting changed (self + dict(setting = value)), never a fresh presync of the bare function, which forgets the settings made before',
+            axioms=())
+def c03_11(ctx):
+    want = {'ij': ('index', 'inner'), 'oj': ('index', 'outer'), 'lj': ('index', 'left'), 'rj': ('index', 'right'), 'ffill': ('method', 'ffill'), 'bfill': ('method', 'bfill')}
+    n = 0
+    for name, (k, v) in want.items():
+        node = ctx.repo.funcs.get(('_pandas', 'presync', name))
+        if node is None:
+            continue
+        n += 1
+        f = Fn(ctx.repo, '_pandas', 'presync', name, node)
+        ctx.count(1, f.where())
+        rr = returns_of(node)
+        ok = False
+        if rr and isinstance(rr[-1].value, ast.BinOp) and isinstance(rr[-1].value.op, ast.Add):
+            left, right = rr[-1].value.left, rr[-1].value.right
+            ok = N(left) in ('self', 'copy(self)') and N(right) == NS("dict(%s = '%s')" % (k, v))
+        if not ok:
+            ctx.fail(f, rr[-1] if rr else node, 'presync.%s returns `%s`, expected self + dict(%s = %r): the other settings of the decorator (index policy, fill method, columns, default) must carry over' % (name, U(rr[-1].value) if rr else '?', k, v),
+                     witness='presync(f).oj.bfill must still join on the union index')
+    ctx.at_least(6, n, 'presync accessors')
